@@ -236,7 +236,13 @@ def np_qr(A, mode='reduced'):
     raise Unmodelled('qr of a matrix that is neither registered nor quasi-diagonal')
 
 
-def sp_rq(A, mode='full', check_finite=True, **kw):
+def sp_rq(A, mode='full', check_finite=True, overwrite_a=False, **kw):
+    if overwrite_a and isinstance(A, _np.ndarray) and A.flags.f_contiguous:
+        # LAPACK works in the caller's buffer when it is Fortran-contiguous (f2py copies
+        # anything else): the factors are computed from a copy, the buffer is destroyed
+        res = sp_rq(A.copy(), mode, check_finite, **kw)
+        _poison(A, 'a')
+        return res
     count('scipy.linalg.rq')
     if mode != 'economic':
         raise Unmodelled(f'rq mode {mode}')
